@@ -516,6 +516,7 @@ theorem ball_empty (h : ∀ v, v ∉ ball P infs recs 0) : ∀ k v, v ∉ ball P
     · exact ih v h3
     · exact ih u hu
 
+set_option linter.unnecessarySeqFocus false in
 theorem length_filter_lt {α : Type} (l : List α) (p q : α → Bool) (hpq : ∀ v ∈ l, p v = true → q v = true)
     (hex : ∃ v ∈ l, q v = true ∧ p v = false) : (l.filter p).length < (l.filter q).length := by
   induction l with
@@ -666,6 +667,209 @@ theorem repSpec_single (i d : Nat) (v : Node) (hd : d < i) (h : isNew P infs rec
       · rfl
       · intro h'
         exact hdn (isNew_unique P infs recs d n v h h')
+
+/-! ### the BFS invariant of the loop -/
+
+/-- report of node `v` in an output list -/
+def rep (l : List (Node × Rat)) (v : Node) : List Rat := (l.filter fun e => e.1 == v).map (·.2)
+
+theorem rep_append (l m : List (Node × Rat)) (v : Node) : rep (l ++ m) v = rep l v ++ rep m v := by
+  simp [rep]
+
+theorem rep_map_const (l : List Node) (hl : l.Nodup) (c : Rat) (v : Node) :
+    rep (l.map fun w => (w, c)) v = if v ∈ l then [c] else [] := by
+  induction l with
+  | nil => rfl
+  | cons a t ih =>
+    have hnd := List.nodup_cons.mp hl
+    have iht := ih hnd.2
+    by_cases hav : a = v
+    · subst hav
+      have : a ∉ t := hnd.1
+      simp only [this, if_false] at iht
+      simp only [rep, List.map_cons, List.filter_cons, beq_self_eq_true, if_true, List.mem_cons, true_or]
+      simp only [rep] at iht
+      rw [iht]
+    · have hva : ¬ v = a := fun h => hav h.symm
+      simp only [rep, List.map_cons, List.filter_cons, List.mem_cons, hva, false_or]
+      simp only [rep] at iht
+      rw [← iht]
+      simp [hav]
+
+theorem ERat_lt_mono (a b : Rat) (t : ERat) (hab : b ≤ a) (h : ERat.lt (some a) t = true) :
+    ERat.lt (some b) t = true := by
+  cases t with
+  | none => rfl
+  | some y =>
+    simp only [ERat.lt, decide_eq_true_eq] at h ⊢
+    exact lt_of_le_of_lt hab h
+
+structure BfsInv (i : Nat) (s : DState) : Prop where
+  sus : ∀ v ∈ P.nodes, (s.sus v = true ↔ v ∉ ball P infs recs i ∧ v ∉ recs)
+  inf_sub : ∀ v ∈ s.inf, v ∈ ball P infs recs i
+  inf_sup : ∀ v ∈ ball P infs recs i, (∀ j, i = j + 1 → v ∉ ball P infs recs j) → v ∈ s.inf
+  time : s.t.headD P.tmin = P.tmin + (i : Rat)
+  horizon : ∀ j < i, ERat.lt (some (P.tmin + (j : Rat))) P.tmax = true
+  rep : ∀ v, rep s.infTime v = repSpec P infs recs i v
+
+theorem bfsInv_init (h : WF P infs recs) : BfsInv P infs recs 0 (init P infs recs) := by
+  refine ⟨?_, ?_, ?_, ?_, ?_, ?_⟩
+  · intro v hv
+    rw [mem_ball_zero]
+    simp only [init, Bool.not_eq_true', Bool.or_eq_false_iff, List.contains_eq_mem, decide_eq_false_iff_not]
+    tauto
+  · intro v hv
+    simp only [init, List.mem_filter, List.contains_iff_mem] at hv
+    rw [mem_ball_zero]
+    exact ⟨hv.1, hv.2, h.disjoint v hv.2⟩
+  · intro v hv _
+    rw [mem_ball_zero] at hv
+    simp only [init, List.mem_filter, List.contains_iff_mem]
+    exact ⟨hv.1, hv.2.1⟩
+  · simp [init]
+  · intro j hj; omega
+  · intro v; rfl
+
+theorem mem_newInf_bfs (i : Nat) (s : DState) (h : BfsInv P infs recs i s) (v : Node) :
+    v ∈ newInf P s ↔ isNew P infs recs i v := by
+  unfold isNew
+  rw [mem_newInf, mem_ball_succ]
+  constructor
+  · rintro ⟨hv, hs, u, hu, hc⟩
+    have := (h.sus v hv).mp hs
+    exact ⟨⟨hv, this.2, Or.inr ⟨u, h.inf_sub u hu, hc⟩⟩, this.1⟩
+  · rintro ⟨⟨hv, hr, hb⟩, hnb⟩
+    refine ⟨hv, (h.sus v hv).mpr ⟨hnb, hr⟩, ?_⟩
+    rcases hb with hb | ⟨u, hu, hc⟩
+    · exact absurd hb hnb
+    · by_cases hui : u ∈ s.inf
+      · exact ⟨u, hui, hc⟩
+      · exfalso
+        have : ¬ ∀ j, i = j + 1 → u ∉ ball P infs recs j := fun hall => hui (h.inf_sup u hu hall)
+        apply this
+        intro j hj huj
+        subst hj
+        apply hnb
+        rw [mem_ball_succ]
+        exact ⟨hv, hr, Or.inr ⟨u, huj, hc⟩⟩
+
+theorem bfsInv_step (hnd : P.nodes.Nodup) (i : Nat) (s : DState) (h : BfsInv P infs recs i s)
+    (hrun : ¬ stopped P s) : BfsInv P infs recs (i + 1) (step P s) := by
+  have hnew := mem_newInf_bfs P infs recs i s h
+  have hstay_sub : (stay P s).Sublist s.inf := stay_sublist P s
+  refine ⟨?_, ?_, ?_, ?_, ?_, ?_⟩
+  · intro v hv
+    rw [step_sus]
+    simp only [Bool.and_eq_true, Bool.not_eq_true', List.contains_eq_mem, decide_eq_false_iff_not]
+    rw [hnew, h.sus v hv]
+    unfold isNew
+    constructor
+    · rintro ⟨⟨h1, h2⟩, h3⟩
+      exact ⟨fun hb => h3 ⟨hb, h1⟩, h2⟩
+    · rintro ⟨h1, h2⟩
+      exact ⟨⟨fun hb => h1 (ball_mono_succ P infs recs i v hb), h2⟩, fun hb => h1 hb.1⟩
+  · intro v hv
+    rw [mem_step_inf] at hv
+    rcases hv.2 with hv' | hv'
+    · exact ((hnew v).mp hv').1
+    · exact ball_mono_succ P infs recs i v (h.inf_sub v (hstay_sub.subset hv'))
+  · intro v hv hall
+    rw [mem_step_inf]
+    have hvn := (ball_nodes P infs recs _ v hv).1
+    exact ⟨hvn, Or.inl ((hnew v).mpr ⟨hv, hall i rfl⟩)⟩
+  · rw [step_t]
+    simp only [List.headD_cons]
+    rw [h.time]; push_cast; ring
+  · intro j hj
+    by_cases hji : j = i
+    · subst hji
+      unfold stopped at hrun
+      rw [h.time] at hrun
+      cases hlt : ERat.lt (some (P.tmin + (j : Rat))) P.tmax with
+      | true => rfl
+      | false => exact absurd (Or.inr hlt) hrun
+    · exact h.horizon j (by omega)
+  · intro v
+    have hnn : (newInf P s).Nodup := (List.filter_sublist (l := P.nodes)).nodup hnd
+    rw [step_infTime, rep_append, h.rep v, rep_map_const (newInf P s) hnn, h.time]
+    simp only [repSpec]
+    congr 1
+    by_cases hn : isNew P infs recs i v
+    · rw [if_pos ((hnew v).mpr hn), if_pos hn]
+    · rw [if_neg (fun hh => hn ((hnew v).mp hh)), if_neg hn]
+
+theorem bfsInv_run (h : WF P infs recs) (fuel : Nat) :
+    ∃ i, BfsInv P infs recs i (run P infs recs fuel) :=
+  loop_inv P (BfsInv P infs recs) (fun i s hs hr => bfsInv_step P infs recs h.nodup i s hs hr)
+    fuel 0 _ (bfsInv_init P infs recs h)
+
+/-- final step: the invariant at a stopped state gives the BFS predicate -/
+theorem isBFS_of_inv (i : Nat) (s : DState) (h : BfsInv P infs recs i s) (hstop : stopped P s) :
+    isBFS P infs recs s.infTime = true := by
+  unfold isBFS
+  rw [List.all_eq_true]
+  intro v hv
+  have hrep : (s.infTime.filter fun e => e.1 == v).map (·.2) = repSpec P infs recs i v := h.rep v
+  simp only
+  rw [hrep]
+  cases hb : bfs P infs recs v with
+  | none =>
+    have hnone := bfs_none P infs recs v hb
+    simp only [beq_iff_eq]
+    exact repSpec_nil P infs recs i v (fun d _ hn => hnone _ hn.1)
+  | some d =>
+    obtain ⟨hd1, hd2⟩ := bfs_some P infs recs v d hb
+    cases d with
+    | zero =>
+      simp only [beq_iff_eq]
+      exact repSpec_nil P infs recs i v (fun d _ hn => hn.2 (ball_mono P infs recs (Nat.zero_le _) v hd1))
+    | succ d =>
+      have hnew : isNew P infs recs d v := ⟨hd1, hd2 d (by omega)⟩
+      simp only
+      by_cases hlt : ERat.lt (some (P.tmin + (d : Rat))) P.tmax = true
+      · rw [if_pos hlt, beq_iff_eq]
+        apply repSpec_single P infs recs i d v _ hnew
+        by_contra hid
+        have hid : i ≤ d := by omega
+        rcases hstop with hemp | hhor
+        · -- no infectious node left: the balls are stationary from `i` on
+          have hemp' : s.inf = [] := by simpa using hemp
+          cases i with
+          | zero =>
+            have h0 : ∀ w, w ∉ ball P infs recs 0 := by
+              intro w hw
+              have := h.inf_sup w hw (fun j hj => by omega)
+              rw [hemp'] at this; simp at this
+            exact ball_empty P infs recs h0 _ v hd1
+          | succ j =>
+            have hst : ∀ w, w ∈ ball P infs recs (j + 1) → w ∈ ball P infs recs j := by
+              intro w hw
+              by_contra hwj
+              have := h.inf_sup w hw (fun j' hj' => by
+                have : j' = j := by omega
+                subst this; exact hwj)
+              rw [hemp'] at this; simp at this
+            have := ball_stationary' P infs recs j hst _ v hd1
+            exact hd2 j (by omega) this
+        · rw [h.time] at hhor
+          have := ERat_lt_mono (P.tmin + (d : Rat)) (P.tmin + (i : Rat)) P.tmax
+            (by have : (i : Rat) ≤ (d : Rat) := by exact_mod_cast hid
+                linarith) hlt
+          rw [this] at hhor
+          exact absurd hhor (by simp)
+      · rw [if_neg hlt, beq_iff_eq]
+        apply repSpec_nil
+        intro d' hd' hn'
+        have := isNew_unique P infs recs d d' v hnew hn'
+        subst this
+        exact hlt (h.horizon d hd')
+
+theorem bfs_correct' (h : WF P infs recs) (fuel : Nat)
+    (hstop : let s := run P infs recs fuel
+             s.inf.isEmpty = true ∨ ERat.lt (some (s.t.headD P.tmin)) P.tmax = false) :
+    isBFS P infs recs (run P infs recs fuel).infTime = true := by
+  obtain ⟨i, hi⟩ := bfsInv_run P infs recs h fuel
+  exact isBFS_of_inv P infs recs i _ hi hstop
 
 end Ball
 
